@@ -12,7 +12,25 @@ def _self():
 
 # C08: called as a sub-template (mapping is the caller's namespace): the namespace holds exactly
 # its entry contents and level on every exit.
+def _call_exit(E, outcome, value, env, prefix):
+    from contracts.dt_try import _renders, may_be
+    rs = _renders(E.trace)
+    if not rs:
+        return
+    ob = lambda n, c, d: E.oblige(prefix + '::C14.' + n, c, kind='trace', detail=d)  # noqa
+    ob('renders_once', len(rs) == 1, 'the compiled blocks are rendered exactly once per call')
+    r = rs[-1]
+    if r['exc'] is not None and r['exc'].cls == 'DTReturn':
+        ob('return_value_is_call_result', outcome == 'normal' and value is r['exc'].fields.get('v'),
+           'dtml-return makes the template call return that value unchanged (any type)')
+    elif r['exc'] is not None:
+        ob('other_exceptions_propagate', outcome == 'raise' and value is r['exc'], 'other exceptions propagate to the caller')
+    elif outcome == 'normal':
+        ob('result_is_rendering', value is r['ret'], 'without dtml-return the call returns the rendering')
+
+
 contract(S_ + '.__call__', variant='subtemplate',
+         exit_hook=_call_exit,
          params=dict(self=_self(), client=Opaque(), mapping=TD(), kw=DictS()),
          ensures=dict(stack="stack_unchanged(mapping)", level="level_of(mapping) == old(level_of(mapping))"),
          exc_ensures=dict(stack="stack_unchanged(mapping)", level="level_of(mapping) == old(level_of(mapping))"),
